@@ -102,6 +102,43 @@ def run(tier):
                     V.violation("stress:differs-from-solo:prog%d" % pi, "program %d run by one of %d OS threads gave %s %s %s, alone it gives %s %s" % (pi, len(j["threads"]), o["status"], o["value"], o["msg"][:200], want["status"], want["value"]), rep)
                 else:
                     agree += 1
+    # ---- a collection of the root (which marks and sweeps every child heap) while the children run on other OS threads:
+    # Heap.tla's Collect is one atomic step for the whole subtree - a child must not allocate between being marked
+    # and being swept.  The programs call a primitive at every iteration (the context lock is released there).
+    PC_PROG = ("let list @ { List } = import! std.list\nlet array = import! std.array.prim\n"
+               "rec let build n acc = if n == 0 then acc else build (n - 1) (Cons (n + array.len [n]) acc)\n"
+               "rec let sum l acc =\n    match l with\n    | Cons x r -> sum r (acc + x)\n    | Nil -> acc\n"
+               "rec let go k acc = if k == 0 then acc else go (k - 1) (acc + sum (build %d Nil) 0)\ngo %d 0\n")
+    pc_jobs = []
+    for k in range(8 if tier == "quick" else 80):
+        n, reps = rnd.choice([(300, 100), (50, 400), (1000, 30)])
+        prog = PC_PROG % (n, reps)
+        pc_jobs.append({"id": k, "modules": mods, "threads": [[prog]] * rnd.choice([2, 3, 4]), "parent_collects": True, "warmup": [prog],
+                        "expect": str(reps * (n * (n + 1) // 2 + n))})
+    pres = vlib.run_pool(["par"], [{k: v for k, v in j.items() if k != "expect"} for j in pc_jobs], workers=3, job_timeout=180)
+    pc_collections = 0
+    for j in pc_jobs:
+        r = pres.get(j["id"])
+        if r is None:
+            continue
+        rep = {"threads": j["threads"], "parent_collects": True, "warmup": j["warmup"], "expect": j["expect"], "observed": {k: r.get(k) for k in ("status", "dangling", "msg", "results")}}
+        if r.get("status") in ("hang", "crash"):
+            again = [vlib.run_pool(["par"], [{k: v for k, v in j.items() if k != "expect"}], workers=1, job_timeout=180).get(j["id"], {}).get("status") for _ in range(2)]
+            if r["status"] in again:
+                V.violation("parent-collects:%s" % r["status"], "the root collects while %d children run on their own OS threads: the VM %s (reproduced): %s" % (len(j["threads"]), r["status"], r.get("msg", "")[-400:]), rep)
+            else:
+                V.divergence("%s in a parent-collects round did not reproduce" % r["status"])
+            continue
+        pc_collections += r.get("parent_collections", 0)
+        if r.get("dangling"):
+            V.violation("parent-collects:dangling", "%d freed objects are reachable after the round" % r["dangling"], rep)
+        for rs in r["results"]:
+            evals += 1
+            o = rs[0] if isinstance(rs, list) else {"status": rs, "value": "", "msg": ""}
+            if (o["status"], o["value"]) != ("ok", j["expect"]):
+                V.violation("parent-collects:wrong-result", "a child computing while the root collects gave %s %s %s, expected %s" % (o["status"], o["value"], o["msg"][:200], j["expect"]), rep)
+            else:
+                agree += 1
     # ---- the predicted cyclic wait on the real VM
     iters = 3000 if tier == "quick" else 30000
     cv = vlib.run_pool(["par"], [{"id": 0, "scenario": "collect_vs_push", "iterations": iters}], workers=1, job_timeout=90 if tier == "quick" else 400)
@@ -119,6 +156,7 @@ def run(tier):
         "evaluations": evals, "distinct_nontrivial": len(jobs), "agree_with_solo": agree,
         "locks_model_predicts_cycle_collect_vs_push": predicted_cycle, "collect_vs_push_on_vm": c.get("status"), "collect_vs_push_detail": {k: c.get(k) for k in ("a_finished", "b_calls_ok")},
         "rule": "%d stress rounds with 2-16 OS threads, 1-3 programs each from 8 templates (overlapping imports of three tick-reporting modules, allocation, lists, channels, maps, lazies), gc stress 0/1/3; results compared with solo runs; module evaluation counts from host.tick; non-trivial = rounds" % rounds,
+        "parent_collects_rounds": len(pc_jobs), "parent_collections_while_children_ran": pc_collections,
         "exhaustive": False, "known_findings_hit": {k: v[1] for k, v in V.known_hits.items()}, "divergences": V.divergences[:10],
     }, ["OS-thread interleavings below the granularity of whole operations are sampled by the stress rounds, not enumerated (no sync-point hooks were built)",
         "a hang counts only if it reproduces with the same programs"], time.time() - t0, len(V.violations))
@@ -130,7 +168,12 @@ def replay(path):
     if d.get("scenario"):
         r = vlib.run_pool(["par"], [{"id": 0, "scenario": d["scenario"], "iterations": 300}], workers=1, job_timeout=120).get(0, {})
     else:
-        r = vlib.run_pool(["par"], [{"id": 0, "modules": module_srcs(), "threads": d["threads"], "gc_stress": d.get("gc_stress", 0)}], workers=1, job_timeout=180).get(0, {})
+        job = {"id": 0, "modules": module_srcs(), "threads": d["threads"], "gc_stress": d.get("gc_stress", 0)}
+        if d.get("parent_collects"):
+            job.update({"parent_collects": True, "warmup": d.get("warmup", [])})
+        r = vlib.run_pool(["par"], [job], workers=1, job_timeout=180).get(0, {})
+        if d.get("expect") and r.get("status") == "ok" and any(rs[0].get("value") != d["expect"] for rs in r["results"]):
+            print("VIOLATION property=%s replay=%s" % (PID, path)); return 1
     print(json.dumps(r)[:1500])
     if r.get("status") in ("hang", "crash") or r.get("dangling"):
         print("VIOLATION property=%s replay=%s" % (PID, path)); return 1
